@@ -60,16 +60,40 @@ def ref_pad_round(a, w):
     return out
 
 
-def check_padded(x, w, mode, parab, locs, mags, tol=0.0, prefix=''):
-    """C05 (extrema / padding half) on one output of get_padded_extrema. Returns list[Failure]."""
+def _find_block(locs, want, tol):
+    """index p with locs[p:p+len(want)] == want (within tol), preferring the centred position; None if there is none"""
+    m, extra = len(want), len(locs) - len(want)
+    if extra < 0:
+        return None
+    order = sorted(range(extra + 1), key=lambda p: (abs(2 * p - extra), p))
+    for p in order:
+        if all(abs(a - b) <= tol for a, b in zip(locs[p:p + m], want)):
+            return p
+    return None
+
+
+def check_padded(x, w, mode, parab, locs, mags, tol=0.0, prefix='', mtol=None, need_cover=False):
+    """C05 (extrema / padding half) on one output of get_padded_extrema. Returns list[Failure].
+
+    tol / mtol: tolerance for locations / magnitudes (mtol defaults to tol).  Literal kinds are the property's own words
+    (interior extrema = the strict extrema, untouched; strictly ordered; pads only outside the interior block and mirrored);
+    the conventions of the current code that the statement does not fix (None for fewer than two extrema, equally many pads
+    on both sides, a multiple of the width, pad magnitudes = edge magnitude) are mechanism-level (literal=False).
+    need_cover: the padded extrema must span every sample (needed for "one envelope value per sample": envelope stream)."""
     n = len(x)
     fs = []
+    mtol = tol if mtol is None else mtol
     ext = strict_extrema(x, mode)
     y = mode_signal(x, mode)
     sign = -1.0 if mode == 'troughs' else 1.0
     if len(ext) < 2:
         if locs is not None:
-            fs.append(Failure(prefix + 'extrema-returned-with-fewer-than-two', '%d strict extrema, got %s' % (len(ext), locs)))
+            # with 0 / 1 strict extremum the statement only says that no other sample may be reported as one; that the answer
+            # is None (rather than the 0- or 1-element set, possibly padded) is the code's convention
+            inside = [v for v in locs if 0 <= v <= n - 1]
+            honest = all(any(abs(v - e) <= max(tol, 0.5 if parab else 0.0) for e in ext) for v in inside) and len(inside) <= len(ext)
+            fs.append(Failure(prefix + 'extrema-returned-with-fewer-than-two', '%d strict extrema, got %s' % (len(ext), locs[:12]),
+                              literal=not honest))
         return fs
     if locs is None:
         return [Failure(prefix + 'extrema-missing', '%d strict extrema but None returned' % len(ext))]
@@ -87,39 +111,49 @@ def check_padded(x, w, mode, parab, locs, mags, tol=0.0, prefix=''):
         want_m = [sign * y[i] for i in ext]
     weff = min(w, m)
     extra = len(locs) - m
-    if extra < 0 or extra % 2:
+    if extra < 0:
         return [Failure(prefix + 'padding-asymmetric-or-extrema-lost', '%d locations for %d extrema' % (len(locs), m))]
-    p = extra // 2
-    inner_l, inner_m = locs[p:p + m], mags[p:p + m]
-    if any(abs(a - b) > tol for a, b in zip(inner_l, want_l)):
+    # the interior block is located by value (the statement does not say that both sides get equally many pads)
+    p = _find_block(locs, want_l, tol)
+    if p is None:
+        # not found as a block: judge the centred block (what the current code produces) and say what differs
+        p = extra // 2
+        inner_l = locs[p:p + m]
         kind = 'interior-extrema-not-strict-extrema'
         if parab and all(abs(a - i) <= 0.5 for a, i in zip(inner_l, ext)):
             kind = 'refined-location-wrong'
         fs.append(Failure(prefix + kind, 'interior %s, strict extrema %s' % (inner_l[:12], want_l[:12])))
-    if any(abs(a - b) > tol for a, b in zip(inner_m, want_m)):
+    pl, pr = p, extra - p
+    inner_l, inner_m = locs[p:p + m], mags[p:p + m]
+    if pl != pr:
+        fs.append(Failure(prefix + 'padding-asymmetric-or-extrema-lost', '%d pads before and %d after the %d extrema' % (pl, pr, m),
+                          literal=False))
+    if any(abs(a - b) > mtol for a, b in zip(inner_m, want_m)):
         fs.append(Failure(prefix + 'interior-magnitudes-wrong', 'interior %s, expected %s' % (inner_m[:12], want_m[:12])))
     if parab:
         if any(abs(a - i) > 0.5 + tol for a, i in zip(inner_l, ext)):
             fs.append(Failure(prefix + 'refinement-beyond-half-sample', '%s vs %s' % (inner_l[:12], ext[:12])))
-        if any(sign * (a - sign * y[i]) < -tol for a, i in zip(inner_m, ext)):
+        if any(sign * (a - sign * y[i]) < -mtol for a, i in zip(inner_m, ext)):
             fs.append(Failure(prefix + 'refined-height-below-sample', ''))
     if any(b <= a for a, b in zip(locs, locs[1:])):
         fs.append(Failure(prefix + 'not-strictly-ordered', 'locs %s' % (locs[:16],)))
     if weff == 0:
-        if p != 0:
-            fs.append(Failure(prefix + 'padded-with-zero-width', '%d added per side' % p))
+        if extra != 0:
+            fs.append(Failure(prefix + 'padded-with-zero-width', '%d added' % extra))
         return fs
-    if p == 0 or p % weff:
-        fs.append(Failure(prefix + 'pad-count-not-multiple-of-width', '%d added per side, width %d' % (p, weff)))
+    if pl == 0 or pr == 0 or pl % weff or pr % weff:
+        # how many pads are added is the re-padding loop's mechanism; what the envelope needs is coverage (below)
+        fs.append(Failure(prefix + 'pad-count-not-multiple-of-width', '%d / %d added, width %d' % (pl, pr, weff), literal=False))
     # every sample index 0..n-1 must lie in [first, last) for the envelope to have one value per sample
     if not (locs[0] <= 0 and locs[-1] > n - 1):
-        fs.append(Failure(prefix + 'edges-not-covered', 'first %s last %s n %d' % (locs[0], locs[-1], n)))
-    if any(abs(v - inner_m[0]) > tol for v in mags[:p]) or any(abs(v - inner_m[-1]) > tol for v in mags[p + m:]):
-        fs.append(Failure(prefix + 'pad-magnitude-not-edge-value', 'mags %s' % (mags[:16],)))
+        fs.append(Failure(prefix + 'edges-not-covered', 'first %s last %s n %d' % (locs[0], locs[-1], n), literal=bool(need_cover)))
+    if any(abs(v - inner_m[0]) > mtol for v in mags[:pl]) or any(abs(v - inner_m[-1]) > mtol for v in mags[pl + m:]):
+        # "mirrored extrema": mirroring the magnitudes as well would satisfy the words; edge-value padding is the default np.pad rule
+        fs.append(Failure(prefix + 'pad-magnitude-not-edge-value', 'mags %s' % (mags[:16],), literal=False))
     # mirrored: rebuild round by round from the interior block, pointwise
-    if p % weff == 0 and p > 0:
+    if pl == pr and pl % weff == 0 and pl > 0:
         ref = list(inner_l)
-        for _ in range(p // weff):
+        for _ in range(pl // weff):
             ref = ref_pad_round(ref, weff)
         if len(ref) != len(locs) or any(abs(a - b) > max(tol, tol * abs(b)) for a, b in zip(locs, ref)):
             fs.append(Failure(prefix + 'padding-not-mirrored', 'locs %s, odd reflection gives %s' % (locs[:16], ref[:16])))
@@ -155,7 +189,7 @@ class time_limit:
         return False
 
 
-CALL_BUDGET_S = 2.0
+CALL_BUDGET_S = 4.0
 
 
 def call_gpe(x, w, mode, parab=False, col2d=False):
@@ -163,14 +197,16 @@ def call_gpe(x, w, mode, parab=False, col2d=False):
     X = np.array(x, dtype=float)
     if col2d:
         X = X[:, None]
-    X.setflags(write=False)
+    # a fresh writable array (read-only inputs are C19's subject, not C05's)
     with time_limit(CALL_BUDGET_S):
         locs, mags = emd.sift.get_padded_extrema(X, pad_width=w, mode=mode, parabolic_extrema=bool(parab))
     if locs is None:
         if mags is not None:
             raise AssertionError('locs None but mags not None')
         return None
-    integral = bool(np.issubdtype(np.asarray(locs).dtype, np.integer))
+    # integral VALUES (the statement says nothing about the dtype the locations are stored in)
+    la = np.asarray(locs)
+    integral = bool(np.issubdtype(la.dtype, np.integer) or (la.size and np.all(np.isfinite(la)) and np.all(la == np.round(la))))
     return {'locs': [int(v) for v in locs] if integral else [float(v) for v in locs],
             'mags': [float(v) for v in mags], 'int': integral}
 
@@ -201,7 +237,7 @@ def as_dtype(x, dtype):
     return [float(np.dtype(dtype).type(v)) for v in x]
 
 
-def call_env(x, emode, method, w, parab, col2d=False, via_utils=False, dtype=None):
+def call_env(x, emode, method, w, parab, col2d=False, dtype=None):
     import emd
     X = np.array(x, dtype=float)
     if dtype not in (None, 'float64'):
@@ -212,8 +248,7 @@ def call_env(x, emode, method, w, parab, col2d=False, via_utils=False, dtype=Non
     n = len(X)
     if col2d:
         X = X[:, None]
-    X.setflags(write=False)
-    fn = emd.utils.interp_envelope if via_utils else emd.sift.interp_envelope
+    fn = emd.sift.interp_envelope      # the documented home (emd.utils only holds an incidental import of the name)
     opts = {'pad_width': w, 'parabolic_extrema': bool(parab)}
     with time_limit(CALL_BUDGET_S):
         r = fn(X, mode=emode, interp_method=method, extrema_opts=opts, ret_extrema=True)
@@ -244,7 +279,9 @@ def parab_condition(x, mode):
     """relative size of the smallest |curvature| at a strict extremum (small = ill-conditioned refinement)"""
     y = mode_signal(x, mode)
     ext = strict_extrema(x, mode)
-    scale = max([1.0] + [abs(v) for v in y])
+    # relative to the signal's own amplitude: the vertex formula is homogeneous, so a signal in small units (1e-13) is exactly as
+    # well conditioned as the same signal at order one (round-3 seeded change: an ABSOLUTE curvature threshold inside the code)
+    scale = max([abs(v) for v in y] + [0.0]) or 1.0
     if not ext:
         return 1.0
     return min(abs(y[i - 1] - 2 * y[i] + y[i + 1]) for i in ext) / scale
@@ -262,6 +299,29 @@ def synth_signal(rng, n, family):
         return [float(rng.randrange(k)) for _ in range(n)]
     if family == 'signed-levels':
         return [float(rng.choice([-2, -1, 0, 1, 2])) for _ in range(n)]
+    if family == 'ripple':
+        # an oscillation that is tiny compared with its offset: extrema stand out from their neighbours by a few units in the last
+        # place of the offset (round-2 seeded change: a prominence filter of 4*eps*max|X| dropped such strict extrema)
+        if rng.random() < 0.6:
+            base = rng.choice([1024.0, -4096.0, 1.0, 3.0e5])
+            u = abs(float(np.spacing(base)))
+            return [base + u * rng.randint(0, 3) for _ in range(n)]
+        base = rng.choice([1.0e6, -2.5e5])
+        f = rng.uniform(0.05, 0.3)
+        return [base + 2e-10 * math.sin(2 * math.pi * f * i + 1.0) for i in range(n)]
+    if family == 'bursts':
+        # order-one bursts separated by quiet stretches (1e-2 .. 1e-3): neighbouring extrema of |x| differ by orders of
+        # magnitude, a cubic spline through them undershoots zero in the gaps (round-3 seeded change: 'combined' envelope clipped at 0)
+        f = rng.uniform(0.08, 0.3)
+        seg = rng.randint(12, 40)
+        quiet = rng.choice([1e-2, 3e-3, 1e-3])
+        ph = rng.uniform(0, 6.28)
+        off = rng.randrange(2)
+        x = []
+        for i in range(n):
+            a = 1.0 if ((i // seg) + off) % 2 == 0 else quiet
+            x.append(a * rng.uniform(0.7, 1.0) * math.sin(2 * math.pi * f * i + ph))
+        return x
     f1 = rng.uniform(0.01, 0.3)
     f2 = rng.uniform(0.01, 0.45)
     x = np.sin(2 * np.pi * f1 * t + rng.uniform(0, 6.28)) + rng.uniform(0, 1) * np.sin(2 * np.pi * f2 * t + rng.uniform(0, 6.28))
@@ -271,9 +331,11 @@ def synth_signal(rng, n, family):
         x = np.round(x / q) * q
     elif family == 'scaled':
         x = x * rng.choice([1e-3, 1e3, 37.0])
+    elif family == 'tiny':           # data in small physical units (e.g. Tesla): everything is homogeneous, so nothing may change
+        x = x * rng.choice([3e-13, 1e-11, 2.5e-15, 1e-9])
     elif family == 'trend':
         x = x + rng.uniform(-0.05, 0.05) * t
     return [float(v) for v in x]
 
 
-FAMILIES = ['levels', 'signed-levels', 'smooth', 'quantised', 'scaled', 'trend']
+FAMILIES = ['levels', 'signed-levels', 'smooth', 'quantised', 'scaled', 'trend', 'tiny', 'bursts', 'ripple']
